@@ -97,6 +97,9 @@ def err_sig(e):
 def run(tier, replay=None):
     if replay:
         obj = json.load(open(replay))['replay']
+        if obj.get('part') == 'map_dispatch':
+            import driver
+            return driver.replay(obj)
         r = wc.run_validator(obj['text'])
         print('map      :', obj.get('map'), 'mode', obj.get('mode'))
         print('verdict  :', r['verdict'], 'exc', r['exc'])
@@ -127,6 +130,9 @@ def run(tier, replay=None):
         big = len(wc.export_map(fn)[1]['nodes']) > 120
         if q and len(docs) > (160 if big else 70):
             docs = rnd.sample(g['docs'], min(len(g['docs']), 130 if big else 50)) + s['docs'][:(30 if big else 20)]
+        elif not q and len(docs) > 500:
+            # thorough: bounded so that the tier finishes in about an hour on 16 cores (every generator position of the smaller maps, a seeded sample of the larger)
+            docs = rnd.sample(g['docs'], min(len(g['docs']), 380)) + s['docs'][:120]
         if g['viol'] or s['viol']:
             model_viol[fn] = (g['viol'] + s['viol'])[:5]
         _, full = wc.export_map(fn)
@@ -165,9 +171,10 @@ def run(tier, replay=None):
         ver[fn] = ent[0]['icvn'] if ent else ''
     fa_maps = set(e['file'] for e in wc.mapexport.index_entries() if e['fic'] == 'FA')     # whether a file holding a 997/999 group is acknowledged is not claimed
     pairs = [(a, b) for a in files for b in files if a != b and ver[a] == ver[b] and ver[a] and a not in fa_maps and b not in fa_maps]
-    if q and len(pairs) > 10:
-        must = [p for p in pairs if p[0].startswith('837') and not p[1].startswith('837')][:3]
-        pairs = must + rnd.sample([p for p in pairs if p not in must], 10 - len(must))
+    npairs = 10 if q else 160
+    if len(pairs) > npairs:
+        must = [p for p in pairs if p[0].startswith('837') and not p[1].startswith('837')][:3 if q else 24]
+        pairs = must + rnd.sample([p for p in pairs if p not in must], npairs - len(must))
     for a, b in pairs:
         _, fa_ = wc.export_map(a)
         _, fb_ = wc.export_map(b)
@@ -237,6 +244,9 @@ def run(tier, replay=None):
     chk.assumptions = ['"in order" = strict map order (position, ties by XML document order); wrapper loops transparent (DESIGN.md C02)',
                        'values are proposed by the concretiser per element definition (first listed code, first fitting external code, type/length shaped literals); repeat counts capped at 2 (3 in random walks)',
                        'maps whose data elements are undefined or whose ISA version the reader refuses are skipped here (C16)']
+    # which map is in force for each segment (spec/Driver.tla): the dispatch on ISA / GS / BHT that this property silently relies on
+    import driver
+    driver.run_part(chk, tier, 'x12n')
     return chk.finish()
 
 
